@@ -126,8 +126,9 @@ type peer interface {
 }
 
 type adapterPeer struct {
-	pipe *faultio.Pipe
-	tr   frugal.FTransport
+	pipe     *faultio.Pipe
+	tr       frugal.FTransport
+	decoyFor func(opid uint64) uint64 // another in-flight op id to embed in a user header value
 }
 
 func newAdapterPeer() *adapterPeer {
@@ -136,10 +137,18 @@ func newAdapterPeer() *adapterPeer {
 	return p
 }
 func (p *adapterPeer) transport() frugal.FTransport { return p.tr }
-func (p *adapterPeer) inject(opid uint64)           { p.pipe.Feed(wire.OpFrame(opid, []byte("payload"))) }
-func (p *adapterPeer) inject503(opid uint64)        {}
-func (p *adapterPeer) junk(b []byte)                { p.pipe.Feed(b) }
-func (p *adapterPeer) close()                       { p.tr.Close() }
+func (p *adapterPeer) inject(opid uint64) {
+	if p.decoyFor != nil {
+		if d := p.decoyFor(opid); d != opid {
+			p.pipe.Feed(wire.OpFrameDecoy(opid, d, []byte("payload")))
+			return
+		}
+	}
+	p.pipe.Feed(wire.OpFrame(opid, []byte("payload")))
+}
+func (p *adapterPeer) inject503(opid uint64) {}
+func (p *adapterPeer) junk(b []byte)         { p.pipe.Feed(b) }
+func (p *adapterPeer) close()                { p.tr.Close() }
 
 type natsPeer struct {
 	srv        *brokers.Nats
@@ -199,7 +208,11 @@ func (p *natsPeer) inject(opid uint64) {
 	if p.subjectFor != nil {
 		subj = p.subjectFor(opid)
 	}
-	p.pc.Publish(fmt.Sprintf("%s.%d", p.inbox, subj), wire.OpFrame(opid, []byte("payload")))
+	fr := wire.OpFrame(opid, []byte("payload"))
+	if subj != opid {
+		fr = wire.OpFrameDecoy(opid, subj, []byte("payload")) // ... and a user header value embeds that request's marshalled _opid pair
+	}
+	p.pc.Publish(fmt.Sprintf("%s.%d", p.inbox, subj), fr)
 	p.pc.Flush()
 }
 func (p *natsPeer) inject503(opid uint64) {
@@ -285,6 +298,17 @@ func replay(variant string, idx int, beh []Step) {
 				return faultio.ErrInjected
 			}
 			return nil
+		}
+	}
+	if ap, ok := p.(*adapterPeer); ok {
+		// a user header value of the frame embeds the marshalled _opid pair of another caller that is in flight, if any
+		ap.decoyFor = func(id uint64) uint64 {
+			for m := 1; m <= 16; m++ {
+				if c := callers[m]; c != nil && c.opid != id && c.state != "done" {
+					return c.opid
+				}
+			}
+			return id
 		}
 	}
 	if np, ok := p.(*natsPeer); ok {
